@@ -23,6 +23,7 @@ from liquid.builtin.expressions import Path
 from liquid.builtin.expressions import StringLiteral
 from liquid.builtin.output import OutputNode
 from liquid.exceptions import TranslationSyntaxError
+from liquid.exceptions import TranslationValueError
 from liquid.limits import to_int
 from liquid.messages import MESSAGES
 from liquid.messages import MessageText
@@ -55,7 +56,7 @@ class TranslateNode(Node, TranslatableTag):
     translations_var = "translations"
     message_count_var = "count"
     message_context_var = "context"
-    re_vars = re.compile(r"(?<!%)%\((\w+)\)s")
+    re_vars = re.compile(r"(?<!%)%\(([\w-]+)\)s")
 
     def __init__(
         self,
@@ -261,7 +262,12 @@ class TranslateNode(Node, TranslatableTag):
             for k in self.re_vars.findall(message_text)
         }
 
-        return message_text % _vars
+        try:
+            return message_text % _vars
+        except (ValueError, KeyError, TypeError) as err:
+            raise TranslationValueError(
+                f"can't format message {message_text!r}: {err}", token=self.token
+            ) from err
 
 
 class TranslateTag(Tag):
